@@ -84,6 +84,13 @@ impl TryFrom<&BoardBuilder> for ChessBoard {
             }
         }
 
+        // every king-dependent field below needs exactly one king per side
+        for color in [White, Black] {
+            if (board.get_piece_type_mask(King) & board.get_color_mask(color)).count_ones() != 1 {
+                return Err(Error::InvalidBoardMultipleOneColorKings);
+            }
+        }
+
         board
             .set_side_to_move(builder.get_side_to_move())
             .set_en_passant(builder.get_en_passant())
@@ -284,7 +291,7 @@ impl ChessBoard {
         if (king_mask & self.get_color_mask(White)).count_ones() != 1 {
             return Some(Error::InvalidBoardMultipleOneColorKings);
         }
-        if (king_mask & self.get_color_mask(White)).count_ones() != 1 {
+        if (king_mask & self.get_color_mask(Black)).count_ones() != 1 {
             return Some(Error::InvalidBoardMultipleOneColorKings);
         }
 
@@ -298,14 +305,24 @@ impl ChessBoard {
 
         // validate en passant
         if let Some(square) = self.get_en_passant() {
-            if (self.get_piece_type_mask(Pawn)
-                & self.get_color_mask(!self.side_to_move)
-                & BitBoard::from_square(match !self.side_to_move {
-                    White => square.up().unwrap(),
-                    Black => square.down().unwrap(),
-                }))
-            .is_blank()
-            {
+            let opposite = !self.side_to_move;
+            let (en_passant_rank, pawn_square, origin_square) = match opposite {
+                White => (Rank::Third, square.up(), square.down()),
+                Black => (Rank::Sixth, square.down(), square.up()),
+            };
+            let is_consistent = match (pawn_square, origin_square) {
+                (Ok(pawn_square), Ok(origin_square)) => {
+                    (square.get_rank() == en_passant_rank)
+                        & self.is_empty_square(square)
+                        & self.is_empty_square(origin_square)
+                        & !(self.get_piece_type_mask(Pawn)
+                            & self.get_color_mask(opposite)
+                            & BitBoard::from_square(pawn_square))
+                        .is_blank()
+                }
+                _ => false,
+            };
+            if !is_consistent {
                 return Some(Error::InvalidBoardInconsistentEnPassant);
             }
         }
